@@ -401,7 +401,7 @@ def summaryR (n : Nat) (s : RSt) : String :=
 def parseWrap (api shape : String) : Option (CorrWrap.Api × CorrWrap.Shape) := do
   let a ← match api with
     | "U" => some CorrWrap.Api.unmarshal | "N" => some .unmarshalNil | "V" => some .unmarshalElement
-    | "I" => some .iter | "J" => some .iterElement | _ => none
+    | "I" => some .iter | "J" => some .iterElement | "O" => some .ibbOpen | "P" => some .ibbOpenMsg | _ => none
   let addr (c : Char) : Option CorrWrap.Addr :=
     if c = '-' then some .absent else if c = 'v' then some .valid else if c = 'x' then some .invalid else none
   match shape.toList with
